@@ -86,9 +86,20 @@ def generate(rng, tier):
     mount = [m if m else "pp" for m in mount]
     if "PATTERN" in rng.choice(MOUNTS) and pat == "*.bak":
         mount = ["old.bak"]
-    twin = {"mount": mount, "root_spelling": rng.choice(SPELLINGS),
+    twin = {"mount": mount, "root_spelling": rng.choice(SPELLINGS), "symlink_mount": rng.random() < 0.15,
             "enum_profile": rng.choice(["sorted", "reverse", "shuffle", "shuffle", "dirs-last-reverse"])}
     return {"world": env, "ops": ops, "twin": twin}
+
+
+def _asc_rel(world):
+    """{path relative to the root: bytes} of all files in ascmhl folders below the root (through a symlinked mount too)"""
+    real = os.path.realpath(world.root)
+    out = {}
+    for d, subs, files in os.walk(real):
+        if os.path.basename(d) == "ascmhl":
+            for f in files:
+                out[os.path.relpath(os.path.join(d, f), real)] = observe.read_bytes(os.path.join(d, f))
+    return out
 
 
 def _mount_class(mount, pats):
@@ -137,8 +148,7 @@ def execute(sc, ctx):
                         f"spelling {sc['twin']['root_spelling']} enum {sc['twin']['enum_profile']}: {rb.stderr[-300:]}"
                         f"{rb.extra.get('abort_tb', '')[-300:]}")
             return
-        fa = {os.path.relpath(os.path.join(wa.base, k), wa.root): v for k, v in scen.all_ascmhl_files(wa.base).items()}
-        fb = {os.path.relpath(os.path.join(wb.base, k), wb.root): v for k, v in scen.all_ascmhl_files(wb.base).items()}
+        fa, fb = _asc_rel(wa), _asc_rel(wb)
         n_written = len(fa)
         if sorted(fa) != sorted(fb):
             ctx.violate({"kind": "history-files-differ", "cause": "names", "mount": _mount_class(sc["twin"]["mount"], pats)},
@@ -187,6 +197,8 @@ def execute(sc, ctx):
     ctx.fault("mount_relocation")
     ctx.fault("enum_order_" + sc["twin"]["enum_profile"])
     ctx.fault("root_spelling_" + sc["twin"]["root_spelling"])
+    if sc["twin"].get("symlink_mount"):
+        ctx.fault("mount_through_symlink")
     ctx.sample = {"ops": [o["argv"] for o in sc["ops"] if scen.is_cmd(o)][:5], "twin": sc["twin"]}
 
 
@@ -219,7 +231,7 @@ def shrink_candidates(sc):
                     protected.add(a[3:])
     for tree in gen.shrink_tree_candidates(sc["world"]["tree"], protected):
         yield dict(sc, world=dict(sc["world"], tree=tree))
-    for key, val in (("root_spelling", "abs"), ("enum_profile", "sorted"), ("mount", ["m"])):
+    for key, val in (("root_spelling", "abs"), ("enum_profile", "sorted"), ("mount", ["m"]), ("symlink_mount", False)):
         if sc["twin"].get(key) != val:
             yield dict(sc, twin=dict(sc["twin"], **{key: val}))
     for key, val in (("tz", "UTC0"), ("read_profile", "full")):
